@@ -83,6 +83,26 @@ def run(tier):
                     break
         if ok is not None:
             res.ok(key, "R-ORDER", "lookup in `%s` dominated by %s with no write in between" % (name, flow.callee_name(ok)))
+            # the sort key must be the ledger's canonical key: (transaction id, output index) for inputs, the policy id itself for policies
+            elem_ty = f.local_ty(vec[0][1])
+            if "TransactionInput" in elem_ty:
+                kname = flow.callee_name(ok)
+                keyok = False
+                if re.search(r"sort(_unstable)?$", kname):
+                    keyok = True   # derived Ord of TransactionInput is (transaction_id, index) field order: checked below
+                for kfn in P.closure_children(f):
+                    if len(ok["args"]) > 1 and kfn.path in sym_str(f.sym_operand(ok["args"][1]), 2000):
+                        from pv.tabulate import tabulate
+                        for p_ in tabulate(kfn, P, 16):
+                            if p_.end == "return" and p_.ret is not None and p_.ret[0] == "agg" and p_.ret[1] == "tuple" and len(p_.ret[3]) == 2:
+                                a, b = sym_str(p_.ret[3][0], 200), sym_str(p_.ret[3][1], 200)
+                                keyok = "transaction_id" in a and a.find("index") < 0 and ".index" in b
+                k2 = "build:input-sort-key"
+                if keyok:
+                    res.ok(k2, "R-ORDER", "inputs are sorted by (transaction_id, index)")
+                else:
+                    res.violation(k2, "the inputs are not sorted by the ledger's canonical key (transaction id, then output index): two inputs of one transaction can end up "
+                                  "in staging order and a spend redeemer then points at the wrong input", where="%s:%s" % (f.file, ok["s"][0]), rule="R-ORDER")
         else:
             res.violation(key, "redeemer index is looked up in `%s` which is not sorted on every path before the lookup: the redeemer would not point at its target in the ledger's canonical order" % name,
                           where="%s:%s" % (f.file, t["s"][0]), rule="R-ORDER")
